@@ -37,8 +37,13 @@ def run_task(task):
             ext.update(blas_spec.LOCAL_EXTERNS)
             if fn in blas_spec.ROWS:
                 row, kw = blas_spec.ROWS[fn], blas_spec.KW[fn]
-                post = (lambda ex, fin, obs: wrapspec.check_wrapper(
-                    ex, fin, row, obs, kw))
+                vp = getattr(blas_spec, 'VALUE_POSTS', {}).get(fn)
+
+                def post(ex, fin, obs, row=row, kw=kw, vp=vp):
+                    r = wrapspec.check_wrapper(ex, fin, row, obs, kw)
+                    if vp is not None:
+                        vp(ex, fin, obs)
+                    return r
         elif mode == 'spec':
             import importlib
             m = importlib.import_module(task['module'])
